@@ -104,7 +104,7 @@ def install(I):
             return type(v, *rest)
         k = cls_of(v)
         if k is None:
-            raise Unsupported("type() of opaque value")
+            return SAny(name="type")
         return k
 
     @model(builtins.callable)
